@@ -317,4 +317,98 @@ theorem diagonal_ordered_perm' (l : Lattice) :
   rw [List.map_flatMap]
 
 
+theorem isRight_lt {x y : Nat} {p : Bool} {r c : Nat} {e : Nat × Nat} (hc : c < x) (hr : r < y)
+    (h : IsRight x p r c e) : e.1 < e.2 ∧ e.2 < x * y :=
+  isBond_lt ⟨r, c, hc, hr, Or.inl h⟩
+
+theorem isBottom_lt {x y : Nat} {p : Bool} {r c : Nat} {e : Nat × Nat} (hc : c < x) (hr : r < y)
+    (h : IsBottom x y p r c e) : e.1 < e.2 ∧ e.2 < x * y :=
+  isBond_lt ⟨r, c, hc, hr, Or.inr h⟩
+
+theorem adjH_iff {x y : Nat} {p : Bool} {a b : Nat} (hx : 0 < x) (hab : a < b) (hb : b < x * y) :
+    adjH x y p a b = true ↔ ∃ r c, c < x ∧ r < y ∧ IsRight x p r c (a, b) := by
+  constructor
+  · intro h
+    have hnn : adjNN x y p a b = true := by simp [adjNN, h]
+    obtain ⟨r, c, hc, hr, hR | hB⟩ := (adjNN_iff hx hab hb).1 hnn
+    · exact ⟨r, c, hc, hr, hR⟩
+    · -- a bottom bond joins different rows
+      exfalso
+      obtain ⟨b1, b2, b3⟩ := isBottom_col hc hB
+      simp only [adjH, row, Bool.and_eq_true, beq_iff_eq] at h
+      have h1 := Nat.div_add_mod a x
+      have h2 := Nat.div_add_mod b x
+      simp only at b1 b2 b3
+      rw [h.1, b1] at h1
+      rw [b2] at h2
+      omega
+  · rintro ⟨r, c, hc, hr, hR⟩
+    have hnn := (adjNN_iff hx hab hb).2 ⟨r, c, hc, hr, Or.inl hR⟩
+    simp only [adjNN, Bool.or_eq_true] at hnn
+    rcases hnn with h | h
+    · exact h
+    · exfalso
+      obtain ⟨a1, a2, a3⟩ := isRight_row hc hR
+      simp only [adjV, col, Bool.and_eq_true, beq_iff_eq] at h
+      have h1 := Nat.div_add_mod a x
+      have h2 := Nat.div_add_mod b x
+      simp only at a1 a2 a3
+      rw [h.1, a1] at h1
+      rw [a2] at h2
+      omega
+
+theorem adjV_iff {x y : Nat} {p : Bool} {a b : Nat} (hx : 0 < x) (hab : a < b) (hb : b < x * y) :
+    adjV x y p a b = true ↔ ∃ r c, c < x ∧ r < y ∧ IsBottom x y p r c (a, b) := by
+  constructor
+  · intro h
+    have hnn : adjNN x y p a b = true := by simp [adjNN, h]
+    obtain ⟨r, c, hc, hr, hR | hB⟩ := (adjNN_iff hx hab hb).1 hnn
+    · exfalso
+      obtain ⟨a1, a2, a3⟩ := isRight_row hc hR
+      simp only [adjV, col, Bool.and_eq_true, beq_iff_eq] at h
+      have h1 := Nat.div_add_mod a x
+      have h2 := Nat.div_add_mod b x
+      simp only at a1 a2 a3
+      rw [h.1, a1] at h1
+      rw [a2] at h2
+      omega
+    · exact ⟨r, c, hc, hr, hB⟩
+  · rintro ⟨r, c, hc, hr, hB⟩
+    have hnn := (adjNN_iff hx hab hb).2 ⟨r, c, hc, hr, Or.inr hB⟩
+    simp only [adjNN, Bool.or_eq_true] at hnn
+    rcases hnn with h | h
+    · exfalso
+      obtain ⟨b1, b2, b3⟩ := isBottom_col hc hB
+      simp only [adjH, row, Bool.and_eq_true, beq_iff_eq] at h
+      have h1 := Nat.div_add_mod a x
+      have h2 := Nat.div_add_mod b x
+      simp only at b1 b2 b3
+      rw [h.1, b1] at h1
+      rw [b2] at h2
+      omega
+    · exact h
+
+theorem horizontal_perm_edges (l : Lattice) (hx : 0 < l.x) :
+    ((l.horizontalNeighbors false).map norm).Perm (edges adjH l.x l.y l.periodic) := by
+  refine (List.perm_ext_iff_of_nodup (horizontal_norm_nodup l) ((pairs_nodup _).filter _)).2 (fun e => ?_)
+  rw [List.mem_filter, mem_pairs, mem_horizontal_norm]
+  constructor
+  · rintro ⟨r, c, hc, hr, h⟩
+    obtain ⟨h1, h2⟩ := isRight_lt hc hr h
+    exact ⟨⟨h1, h2⟩, (adjH_iff hx h1 h2).2 ⟨r, c, hc, hr, h⟩⟩
+  · rintro ⟨⟨h1, h2⟩, h3⟩
+    exact (adjH_iff hx h1 h2).1 h3
+
+theorem vertical_perm_edges (l : Lattice) (hx : 0 < l.x) :
+    ((l.verticalNeighbors false).map norm).Perm (edges adjV l.x l.y l.periodic) := by
+  refine (List.perm_ext_iff_of_nodup (vertical_norm_nodup l hx) ((pairs_nodup _).filter _)).2 (fun e => ?_)
+  rw [List.mem_filter, mem_pairs, mem_vertical_norm hx]
+  constructor
+  · rintro ⟨r, c, hc, hr, h⟩
+    obtain ⟨h1, h2⟩ := isBottom_lt hc hr h
+    exact ⟨⟨h1, h2⟩, (adjV_iff hx h1 h2).2 ⟨r, c, hc, hr, h⟩⟩
+  · rintro ⟨⟨h1, h2⟩, h3⟩
+    exact (adjV_iff hx h1 h2).1 h3
+
+
 end OFV.C13
